@@ -325,7 +325,7 @@ def removal_funnel(ctx, s):
             continue
         for b, info, table, key, conds in table_ops(ctx, s, f, ("delete", "clear", "delete_range")):
             n += 1
-            if table in INDEX_TABLES and f.nice not in ("pocket_db::Lmdb::deindex", "pocket_db::Lmdb::deindex_id"):
+            if table.rsplit(".", 1)[-1] in INDEX_TABLES and f.nice not in ("pocket_db::Lmdb::deindex", "pocket_db::Lmdb::deindex_id"):
                 bad.append((f, b, info, table))
     ctx.floor("C17.delete-sites", n, 7)
     for f, b, info, table in bad:
@@ -340,7 +340,7 @@ def removal_funnel(ctx, s):
         if not p.startswith("pocket_db::"):
             continue
         for b, info, table, key, conds in table_ops(ctx, s, f, ("put", "put_with_flags", "append")):
-            if table in INDEX_TABLES and f.nice != "pocket_db::Lmdb::index":
+            if table.rsplit(".", 1)[-1] in INDEX_TABLES and f.nice != "pocket_db::Lmdb::index":
                 badp.append((f, b, info, table))
     for f, b, info, table in badp:
         s.add("S-WHO", f, "index-put-outside-index", table, info["sp"], VIOLATION,
@@ -406,6 +406,30 @@ def scan_builders(ctx, s, puts):
             elif order_ok and (z1 is None or z2 is None):
                 order_ok = None
         n += 1
+        # bounds assembled by hand: the stored keys hold at most the builder's fixed width of a tag value, so a bound that
+        # takes the whole of an unbounded slice parameter (no cut, no length test) does not bracket the stored keys of long values
+        P_ = ctx.E.prover(fn)
+        for eb, einfo in an.calls():
+            last = (einfo["callee"] or "").rsplit("::", 1)[-1]
+            if last not in ("extend", "extend_from_slice", "append") or len(einfo["args"]) < 2:
+                continue
+            src = einfo["args"][-1]
+            while src[0] in ("ref", "byref", "unsize") and isinstance(src[1], tuple):
+                src = src[1]
+            if src[0] == "param" and fn.locals[src[1]]["ty"]["s"] in ("&[u8]", "&'_ [u8]"):
+                ln = P_.lin(an.len_of(src))
+                from ..prove import lin_add as _la, lin_const as _lc
+                bounded = P_.prove_le0(_la(ln, _lc(4096), -1), ctx.E.facts(fn, eb))
+                from .recheck import builder_is_lossy
+                try:
+                    cuts = bool(want) and want != "?" and builder_is_lossy(ctx, s, want)[0]
+                except Exception:
+                    cuts = False
+                if not bounded and cuts:
+                    s.add("S-REL", fn, "scan-bound-holds-whole-value", itname, einfo["sp"], VIOLATION,
+                          "a scan bound over %s is assembled by hand and takes the whole of `%s` whatever its length, while the keys "
+                          "index() writes hold only the builder's fixed width of it: for a longer value the bounds do not bracket "
+                          "the stored key and the event is not found" % (table, fn.local_name(src[1])), eb)
         if (want in (None, "?") or not names) and tbl == table:
             # one side assembles its keys by hand (no key_* builder call): whether the bytes agree is not read off the calls
             s.add("S-MIRROR", fn, "scan-bounds", itname, info["sp"], UNDECIDED,
